@@ -57,6 +57,10 @@ TEXTS: dict[str, str] = {
     "ws": "  padded \t\n",
     "usep": "u v w\x85x\x0by\x0cz\x1c\x1e",
     "pct": "100% %s %d {} {0} %(name)s",
+    # lone surrogates (what bytes.decode(errors="surrogateescape") or a broken UTF-16 source produce): a str that cannot
+    # be encoded as UTF-8; the writer must still store it (JSON \\uXXXX escapes) and must not lose this or later records
+    "surr": "\udcff",
+    "surrmid": "abc\ud800def\udcff.",
 }
 TEXT_KEYS = list(TEXTS)
 BRIEF_TEXT_KEYS = TEXT_KEYS[:8]
